@@ -33,6 +33,19 @@ Lemma gen_tmo : tmo_worker = TDefault /\ tmo_query = TDefault /\ tmo_hardstop = 
                 tmo_softstop = TNone /\ tmo_load = TDefault.
 Proof. repeat split; reflexivity. Qed.
 Lemma gen_unserved : unserved_answered = true. Proof. reflexivity. Qed.
+Lemma gen_wake : wake_is_earliest = true. Proof. reflexivity. Qed.
+
+(** the loop's next wake-up is no later than any pending deadline *)
+Lemma earliest_le : forall ts t d, In t ts -> t_deadline t = Some d ->
+  exists w, earliest ts = Some w /\ (w <= d)%N.
+Proof.
+  induction ts as [|a r IH]; intros t d Hin Hd; [destruct Hin|].
+  cbn [earliest]. destruct Hin as [->|Hin].
+  - rewrite Hd. destruct (earliest r) as [e|]; eexists; split; try reflexivity; lia.
+  - destruct (IH _ _ Hin Hd) as [w [Hw Hle]]. rewrite Hw.
+    destruct (t_deadline a) as [da|]; eexists; split; try reflexivity; lia.
+Qed.
+
 
 (** ** Vocabulary of the statements *)
 Definition tid_of (r : rid) : nat := snd (fst r).
@@ -1801,4 +1814,49 @@ Proof.
   destruct (Nat.ltb_spec (t_rq t) (next_rq h)); [|lia].
   unfold count_rq in Hb at 2. cbn [filter length] in Hb.
   destruct (finals_of (t_rq t) os); [reflexivity|cbn [length] in Hb; lia].
+Qed.
+
+(** ** Request ids and the task counter *)
+Lemma scatter_on_inv : forall h rq tid idx h' os,
+    scatter_on h rq tid idx = (h', os) ->
+    next_task h' = next_task h /\ forall w r rq', In (OSend w r rq') os -> tid_of r = tid.
+Proof.
+  intros h rq tid idx h' os H. unfold scatter_on in H. inversion H; subst; clear H. split; [reflexivity|].
+  intros w r rq' Hin. apply in_map_iff in Hin. destruct Hin as [w0 [E _]]. inversion E; subst. reflexivity.
+Qed.
+
+Lemma scatter_many_inv : forall idxs h rq tid h' os,
+    scatter_many h rq tid idxs = (h', os) ->
+    next_task h' = next_task h /\ forall w r rq', In (OSend w r rq') os -> tid_of r = tid.
+Proof.
+  induction idxs as [|i idxs IH]; intros h rq tid h' os H; cbn [scatter_many] in H.
+  - inversion H; subst. split; [reflexivity|intros w r rq' []].
+  - destruct (scatter_on h rq tid i) as [h1 o1] eqn:E1. destruct (scatter_many h1 rq tid idxs) as [h2 o2] eqn:E2.
+    inversion H; subst; clear H. destruct (scatter_on_inv _ _ _ _ _ _ E1) as [N1 S1]. destruct (IH _ _ _ _ _ E2) as [N2 S2].
+    split; [congruence|]. intros w r rq' Hin. apply in_app_or in Hin. destruct Hin as [Hin|Hin]; eauto.
+Qed.
+
+(** every id a client request scatters carries the current value of the task counter, and the
+    counter has moved past it afterwards *)
+Lemma client_request_sends : forall h c v h' os w r rq,
+    client_request h c v = (h', os) -> In (OSend w r rq) os ->
+    tid_of r = next_task h /\ next_task h < next_task h'.
+Proof.
+  intros h c v h' os w r rq H Hin. unfold client_request in H.
+  destruct v as [|b| | | | | |n bad];
+    try (cbn [new_task] in H;
+         match type of H with context [scatter_on ?a ?b ?c ?d] => destruct (scatter_on a b c d) as [h2 o] eqn:E end;
+         inversion H; subst; clear H; destruct Hin as [Hx|Hin]; [discriminate|];
+         destruct (scatter_on_inv _ _ _ _ _ _ E) as [N S]; cbn in N;
+         split; [eapply S; eauto|cbn; rewrite N; lia]).
+  - cbn in H. inversion H; subst. cbn in Hin. destruct Hin as [Hx|Hx]; [discriminate|destruct Hx].
+  - cbn in H. inversion H; subst. cbn in Hin. destruct Hin as [Hx|Hx]; [discriminate|destruct Hx].
+  - assert (G : unserved_answered = true) by reflexivity. rewrite G in H. cbn in H. inversion H; subst. cbn in Hin.
+    destruct Hin as [Hx|Hx]; [discriminate|destruct Hx].
+  - cbn [new_task] in H.
+    match type of H with context [scatter_many ?a ?b ?c ?d] => destruct (scatter_many a b c d) as [h2 o] eqn:E end.
+    destruct (scatter_many_inv _ _ _ _ _ _ E) as [N S]. cbn in N.
+    destruct bad; inversion H; subst; clear H;
+      (destruct Hin as [Hx|Hin]; [discriminate|]; apply in_app_or in Hin; destruct Hin as [Hin|[Hx|[]]]; [|discriminate];
+       split; [eapply S; eauto|cbn; rewrite N; lia]).
 Qed.
